@@ -14,6 +14,10 @@ def check(run):
     # handlers that write to the context they are evaluated in (later reads must see the write, each still exactly once)
     ef.eval_model_and_replay(run, "mutators-d1", ef.mceval_cfg("c07-mut", depth=1, full_faults=False, mutators=True), "C07")
     ef.eval_model_and_replay(run, "shapes-d2", ef.mceval_cfg("c07-d2", depth=2, full_faults=thorough, modes=("call", "bare", "mixed") if thorough else ("mixed",)), "C07")
+    # the same name several times in one program (call and bare forms mixed): each occurrence is its own invocation
+    run.rules.append("repeated names: 9 programs in which one context function occurs two or three times (as operands, list elements, map key and value, call arguments, statements, "
+                     "condition and branches; called and by bare name), with the fault at every invocation: the engine may not remember an earlier result for a name")
+    ef.eval_model_and_replay(run, "dup", ef.mceval_cfg("c07-dup", family="dup"), "C07")
     ef.eval_trace(run, "random", 20000 if thorough else 3000, run.seed, "C07")
     run.exhaustive = False
     run.assumptions += ["programs are built directly as ExprAST values (the enum is public), so the check does not depend on the parser",
